@@ -21,9 +21,9 @@ def menu(nc):
     return out
 
 
-def mk(name, shares, extra_market=False, index_first=False, shock=True):
+def mk(name, shares, extra_market=False, index_first=False, shock=True, drift=True):
     nc = len(shares)
-    markets = [dict(name="M%d" % i, shares=sh, drift=(2.0 ** -7 if i == 1 else 0.0)) for i, sh in enumerate(shares)]
+    markets = [dict(name="M%d" % i, shares=sh, drift=(2.0 ** -7 if i == 1 and drift else 0.0)) for i, sh in enumerate(shares)]
     markets.append(dict(name="IDX", cls="ProbeIndexMarket", components=["M%d" % i for i in range(nc)]))
     if extra_market:
         markets.append(dict(name="X", shares=3))
@@ -62,6 +62,9 @@ def scenarios(tier):
         for extra in (False, True):
             n = "index:%s%s" % ("-".join(map(str, shares)), "+X" if extra else "")
             sc[n] = mk(n, shares, extra_market=extra)
+    # constant fundamentals (no drift, no volatility) except for the shock on one component
+    sc["index_nodrift:1-2"] = mk("index_nodrift:1-2", (1, 2), drift=False)
+    sc["index_nodrift:2-5-1+X"] = mk("index_nodrift:2-5-1+X", (2, 5, 1), extra_market=True, drift=False)
     sc["index_first:1-2-5"] = mk("index_first:1-2-5", (1, 2, 5), index_first=True)
     sc["index_first:2-5+X"] = mk("index_first:2-5+X", (2, 5), extra_market=True, index_first=True)
     return sc
